@@ -99,6 +99,15 @@ Definition L1chain (cs : inst bigQ * seq (seq (seq Q))) : bool :=
 (* L1 through the theorem C08_posterior_exact: for a well-formed instance whose run returns Some, fb_run IS
    posterior_spec; used where even the chain form (2^#reads bipartitions) is too large to evaluate *)
 Definition L1thm (cs : inst bigQ * seq (seq (seq Q))) : bool := L2 cs.
+(* L1 for columns of high coverage (2^k bipartitions with k up to 13, where the model's association-list tables
+   are too slow): the chain form of the posterior over the specification columns themselves (local factors computed
+   from the entries, no tables); equal to posterior_spec by C08_chain_form *)
+Definition spec_chain_raw (I : inst bigQ) : nat -> nat -> nat -> bigQ :=
+  @posterior_chain_gen bigQ 0%bigQ 1%bigQ BigQ.add_norm BigQ.mul_norm BigQ.div_norm
+    (ntrans (i_ped I)) (nassign (i_ped I)) (geno (i_ped I))
+    (@spec_cols bigQ 0%bigQ 1%bigQ BigQ.add_norm BigQ.sub_norm BigQ.mul_norm BigQ.div_norm I).
+Definition L1raw (cs : inst bigQ * seq (seq (seq Q))) : bool :=
+  wf cs.1 && (let sp := spec_chain_raw cs.1 in tab_close (fun c ind g => BigQ.to_Q (sp c ind g)) cs.1 cs.2).
 Definition L1sum (cs : inst bigQ * seq (seq (seq Q))) : bool :=
   all (fun row => all (fun l => qclose tol (foldr Qplus 0%Q l) 1%Q) row) cs.2.
 (* CLI level. case = (instance recorded from the CLI, threshold, calls) with
@@ -311,6 +320,15 @@ def gen_core(ctx):
             inst = dict(inst, positions_none=True)
         res.append((label, inst, plain))
     out = res
+    # coverage 9..13 (2^k bipartitions: beyond batch sizes of the Gray-code enumeration such as 1024), always with a
+    # gapped read followed by covering reads in a high-coverage column
+    for k, cnt in ((9, ctx.n(2, 6)), (10, ctx.n(2, 6)), (11, ctx.n(2, 6)), (12, ctx.n(1, 4)), (13, ctx.n(1, 3))):
+        for _ in range(cnt):
+            out.append(("single-wide-gap", G.make_wide_instance(rng, k), False))
+    # 25-30 columns: check-pointing stride 5
+    for _ in range(ctx.n(3, 30)):
+        out.append(("single-stride5", G.make_profile_instance(rng, nind=1, trios=(), min_cols=25, max_cols=30, max_reads=10,
+                                                              levels=(0, 1, 1, 2, 3)), False))
     # long matrices (9-20 columns) with non-uniform coverage profiles: check-pointing with re-computation
     for _ in range(ctx.n(30, 400)):
         out.append(("single-profile", G.make_profile_instance(rng, nind=1, trios=()), False))
@@ -351,7 +369,12 @@ def check_core(ctx, labelled, tag="core"):
         for key, v in G.shape_tallies(inst).items():
             ctx.tally(f"{tag}.shape.{key}", v)
         nr = len(inst["reads"])
-        if nr <= (5 if label.endswith("-profile") else 6) and not (label == "trio-profile" and nr > 3):
+        if label == "single-wide-gap":
+            # the model's association-list tables are too slow for 2^9..2^13 bipartitions: L1 only, by the chain form
+            # over the specification columns (no tables), cost ~ 4^... measured 10 s (k=9) .. 190 s (k=13)
+            k = max(len(c) for c in G.active_columns(inst))
+            checks = [("L1raw", 400 * 2 ** k), ("L1sum", 1)]
+        elif nr <= (5 if label.endswith("-profile") else 6) and not (label == "trio-profile" and nr > 3):
             checks = [("L2", cost), ("L1chain", cost * (1 + 2 ** max(0, nr - 6) // 8)), ("L1sum", 1)]
         else:
             # one evaluation of fb_run serves as L2 and, through the theorem, as L1
@@ -376,7 +399,7 @@ def report_core(ctx, records, search=True):
     for rec in records:
         ok = rec["ok"]
         inst = rec["inst"]
-        for fn in ("L1plain", "L1chain", "L1thm"):
+        for fn in ("L1plain", "L1chain", "L1thm", "L1raw"):
             if ok.get(fn) is False:
                 ctx.violation("core:posterior",
                               f"genotype likelihoods differ from the HMM posterior ({fn}) by more than 1e-9 relative on "
@@ -837,6 +860,144 @@ def check_cli_runs(ctx, runs):
         ctx.l2_disagreement("writer model on fb_run of the recorded CLI instance = output VCF (GT/GL/GQ)", l2bad)
 
 
+WRITER_DRIVER = r'''
+import sys, json
+import whatshap.cli.genotype as g
+from whatshap.vcf import VcfReader, GenotypeVcfWriter
+from whatshap.core import PhredGenotypeLikelihoods
+spec = json.load(sys.stdin)
+gt_prob = 1.0 - (10 ** (-spec["thr_q"] / 10.0))
+with GenotypeVcfWriter(command_line=None, in_path="in.vcf", out_file="out.vcf") as w:
+    with VcfReader("in.vcf", only_snvs=False, genotype_likelihoods=False, ignore_genotypes=True) as r:
+        for table in r:
+            for s, per_chrom in spec["lik"].items():
+                gls = table.genotype_likelihoods_of(s)
+                gts = table.genotypes_of(s)
+                for i, l in enumerate(per_chrom[table.chromosome]):
+                    if l is None:
+                        continue
+                    pl = PhredGenotypeLikelihoods([float.fromhex(x) for x in l])
+                    gls[i] = pl
+                    gts[i] = g.determine_genotype(pl, gt_prob)
+                table.set_genotypes_of(s, gts)
+                table.set_genotype_likelihoods_of(s, gls)
+            w.write_genotypes(table.chromosome, table, False)
+print(json.dumps({"vcf": open("out.vcf").read()}))
+'''
+
+
+def writer_triple(rng, gt_prob):
+    """likelihood triples around every boundary of the writer: exact zeros (GL floor -1000, GQ cap 10000), exact
+    ties, the maximum exactly at / next to the threshold, denormal and tiny values, plus random distributions"""
+    import math
+    kind = rng.choice(["zero2", "zero1", "tie", "tie3", "at-thr", "above-thr", "tiny", "denormal", "random", "random"])
+    if kind == "zero2":
+        t = [1.0, 0.0, 0.0]
+    elif kind == "zero1":
+        a = rng.choice([0.5, 0.75, 0.999])
+        t = [a, 1.0 - a, 0.0]
+    elif kind == "tie":
+        t = [0.4, 0.4, 0.2]
+    elif kind == "tie3":
+        t = [1 / 3.0, 1 / 3.0, 1 / 3.0]
+    elif kind in ("at-thr", "above-thr"):
+        m = gt_prob if kind == "at-thr" else math.nextafter(gt_prob, 2.0)
+        m = min(max(m, 0.5), 1.0)
+        t = [m, (1.0 - m) * 0.75, (1.0 - m) * 0.25]
+    elif kind == "tiny":
+        t = [1e-300, 1.0, 1e-120]
+    elif kind == "denormal":
+        t = [5e-324, 1.0 - 1e-9, 1e-9]
+    else:
+        x = [rng.random() ** 3 for _ in range(3)]
+        sm = sum(x)
+        t = [v / sm for v in x]
+    rng.shuffle(t)
+    return kind, t
+
+
+def check_writer_direct(ctx, n):
+    """GenotypeVcfWriter.write_genotypes + determine_genotype driven directly (as the tail of run_genotype does) on a
+    multi-sample VCF with chosen likelihood tables: reaches the GL floor, the GQ cap, exact ties and the threshold
+    boundary, which the DP never produces on small data.  Checked with the same per-call rules (CLIW_L1 / CLIW_L2)."""
+    from .. import synth
+    from ..util import workdir, run_py
+    rng = ctx.rng
+    wd = workdir(ctx)
+    items, meta = [], []
+    for k in range(n):
+        names = rng.sample(NAME_POOL, rng.randint(1, 4))
+        sc = synth.make_scenario(rng, nchrom=rng.randint(1, 2), nsamples=len(names), nvars=rng.randint(2, 5), kinds=("snv",),
+                                 sample_names=names)
+        thr_q = rng.choice([0, 0, 3, 10, 0.5, 100, 200])
+        gt_prob = 1.0 - (10 ** (-thr_q / 10.0))
+        chosen = [s for s in names if rng.random() < 0.7] or [names[-1]]
+        lik, kinds = {}, {}
+        for s in chosen:
+            lik[s] = {}
+            for chrom in sc.chroms:
+                row = []
+                for _ in sc.variants[chrom]:
+                    if rng.random() < 0.15:
+                        row.append(None)
+                    else:
+                        kind, t = writer_triple(rng, gt_prob)
+                        ctx.tally("writer.triple." + kind)
+                        row.append([float(x).hex() for x in t])
+                lik[s][chrom] = row
+        d = os.path.join(wd, f"wr{k}")
+        os.makedirs(d)
+        synth.write_vcf(sc, os.path.join(d, "in.vcf"))
+        spec = {"thr_q": thr_q, "lik": lik}
+        rc, so, se = run_py(ctx, WRITER_DRIVER, stdin=json.dumps(spec), cwd=d)
+        ctx.tally("writer.runs")
+        ctx.tally("writer.threshold=%s" % thr_q)
+        replay = {"kind": "writer", "scenario": sc.to_json(), "spec": spec}
+        try:
+            data = json.loads(so.splitlines()[-1]) if rc == 0 else None
+        except Exception:
+            data = None
+        if not data:
+            ctx.violation("writer:crash", f"write_genotypes / determine_genotype fail on a valid likelihood table: {se[-500:]}", replay)
+            continue
+        calls = parse_vcf_calls(data["vcf"])
+        wcalls = []
+        for chrom in sc.chroms:
+            for vi, v in enumerate(sc.variants[chrom]):
+                for s in names:
+                    gt, gq, gl = calls[(chrom, v.pos, s)]
+                    hx = lik.get(s, {}).get(chrom, [None] * (vi + 1))[vi]
+                    l = None if hx is None else [G.hex_to_fraction(h) for h in hx]
+                    wcalls.append((l is not None, gt_index(gt), None if gq in (None, ".") else int(gq), gl_values(gl), l,
+                                   (chrom, v.pos, s, gt, gq, gl)))
+        ctx.tally("writer.calls", len(wcalls))
+        ctx.tally("writer.calls.GQ=10000", sum(1 for w in wcalls if w[2] == 10000))
+        ctx.tally("writer.calls.GL=-1000", sum(1 for w in wcalls if "-1000" in (w[5][5] or "")))
+        ctx.tally("writer.calls.called", sum(1 for w in wcalls if w[1] is not None))
+        ctx.tally("writer.calls.no-table", sum(1 for w in wcalls if w[4] is None))
+        thr = Fraction(gt_prob)
+        wterm = wcli_term(thr, wcalls)
+        ctx.count(("writer", json.dumps(spec, sort_keys=True)), nontrivial=True)
+        for fn in ("CLIW_L1", "CLIW_L2"):
+            items.append((fn, wterm, 5 + len(wcalls)))
+            meta.append((replay, wcalls, fn))
+    res, errors = eval_items("C08wr", items, nshards=8)
+    if errors:
+        raise RuntimeError("coq evaluation failed: " + errors[0])
+    l2bad = []
+    for (replay, wcalls, fn), ok in zip(meta, res):
+        if ok:
+            continue
+        if fn == "CLIW_L1":
+            ctx.violation("writer:gt-gl-gq", f"GenotypeVcfWriter output violates the GT/GL/GQ rules: threshold={replay['spec']['thr_q']} "
+                                             f"calls={[w[5] for w in wcalls][:12]}", replay)
+        else:
+            l2bad.append({"spec": replay["spec"], "calls": [w[5] for w in wcalls][:12]})
+    if l2bad:
+        ctx.disagreements_checked += len(l2bad)
+        ctx.l2_disagreement("writer model (determine_genotype + write_genotypes on rationals) = written VCF, direct stream", l2bad)
+
+
 def gl_values(gl):
     """GL field -> [10^GL] as exact rationals of the python floats, None if absent"""
     if gl in (None, "."):
@@ -932,8 +1093,9 @@ def run(ctx):
     for rec in records[:2] + records[-3:]:
         ctx.sample({"inst": rec["inst"], "impl": rec["impl"].get("ok"), "checks": rec["ok"]})
     report_core(ctx, records)
-    ctx.extra["core_checks"] = {k: sum(1 for r in records if k in r["ok"]) for k in ("L2", "L1chain", "L1thm", "L1plain", "L1sum")}
+    ctx.extra["core_checks"] = {k: sum(1 for r in records if k in r["ok"]) for k in ("L2", "L1chain", "L1thm", "L1raw", "L1plain", "L1sum")}
     check_cli(ctx, ctx.n(24, 120))
+    check_writer_direct(ctx, ctx.n(8, 60))
 
 
 def replay(ctx, data):
@@ -941,6 +1103,8 @@ def replay(ctx, data):
         inst = data["inst"]
         recs = check_core(ctx, [("replay", inst, len(inst["reads"]) <= 3 and inst["nind"] == 1)], tag="replay")
         report_core(ctx, recs, search=False)
+    elif data.get("kind") == "writer":
+        check_writer_direct(ctx, 4)      # the stream is cheap; the stored spec documents the failing table
     elif data.get("kind") == "cli" and "spec" in data:
         from ..util import workdir
         d = os.path.join(workdir(ctx), "replay")
